@@ -71,7 +71,7 @@ func newCheckEnv(name string, fc *FuncContract) *checkEnv {
 }
 
 func (e *Engine) newExec(ce *checkEnv) *Exec {
-	x := &Exec{eng: e, ctx: NewCtx(), cur: ce, closures: map[*ssa.MakeClosure]bool{}}
+	x := &Exec{eng: e, ctx: NewCtx(), cur: ce, closures: map[*ssa.MakeClosure]bool{}, matSeq: map[string]*SeqV{}, iteDefs: map[string][3]Term{}}
 	return x
 }
 
@@ -94,17 +94,65 @@ func (x *Exec) assumeAxioms(upTo *Axiom) {
 				continue
 			}
 		}
-		env := &SpecEnv{x: x, vars: map[string]*Value{}}
-		t, err := env.EvalBool(ax.E)
-		if err != nil {
-			x.cur.errors = append(x.cur.errors, fmt.Sprintf("%s:%d: axiom %s: %v", ax.File, ax.Line, ax.Name, err))
+		// axioms about uninterpreted spec functions are added when such a function is first used
+		if ufs := x.eng.axiomUFs(ax); len(ufs) > 0 && upTo == nil {
+			x.pendingAx = append(x.pendingAx, ax)
 			continue
 		}
-		if !ax.Lemma {
-			x.ctx.Trust("axiom " + ax.Name + ": " + ax.Text)
-		}
-		x.ctx.Assume(t)
+		x.assumeAxiom(ax)
 	}
+}
+
+func (x *Exec) assumeAxiom(ax *Axiom) {
+	env := &SpecEnv{x: x, vars: map[string]*Value{}}
+	t, err := env.EvalBool(ax.E)
+	if err != nil {
+		x.cur.errors = append(x.cur.errors, fmt.Sprintf("%s:%d: axiom %s: %v", ax.File, ax.Line, ax.Name, err))
+		return
+	}
+	if !ax.Lemma {
+		x.ctx.Trust("axiom " + ax.Name + ": " + ax.Text)
+	}
+	x.ctx.Assume(t)
+}
+
+// axiomUFs lists the uninterpreted spec functions an axiom talks about.
+func (e *Engine) axiomUFs(ax *Axiom) []string {
+	var out []string
+	walkExpr(ax.E, func(n Expr) {
+		if c, ok := n.(*ECall); ok {
+			if id, ok := c.Fn.(*EIdent); ok {
+				if sf, ok := e.specs[id.Name]; ok && sf.Body == nil {
+					out = append(out, id.Name)
+				}
+			}
+		}
+	})
+	return out
+}
+
+// releaseAxioms assumes pending axioms all of whose uninterpreted functions are now declared.
+func (x *Exec) releaseAxioms() {
+	if x.releasing {
+		return
+	}
+	x.releasing = true
+	defer func() { x.releasing = false }()
+	var rest []*Axiom
+	for _, ax := range x.pendingAx {
+		ready := true
+		for _, u := range x.eng.axiomUFs(ax) {
+			if _, ok := x.ctx.named["spec|"+u]; !ok {
+				ready = false
+			}
+		}
+		if ready {
+			x.assumeAxiom(ax)
+		} else {
+			rest = append(rest, ax)
+		}
+	}
+	x.pendingAx = rest
 }
 
 func (e *Engine) verifyFunc(fn *ssa.Function, fc *FuncContract) (rep *FuncReport) {
@@ -171,7 +219,7 @@ func (e *Engine) verifyFunc(fn *ssa.Function, fc *FuncContract) (rep *FuncReport
 	envPre := &SpecEnv{x: x, vars: fr.argVars, st: st, old: st, fn: fn}
 	if fn.Pkg != nil && !fc.PkgInit {
 		for _, inv := range e.pkgInvs[fn.Pkg.Pkg.Path()] {
-			t, err := envPre.EvalBool(inv.E)
+			t, err := envPre.EvalAssume(inv.E)
 			if err != nil {
 				fr.contractError(inv, err)
 				continue
@@ -181,7 +229,7 @@ func (e *Engine) verifyFunc(fn *ssa.Function, fc *FuncContract) (rep *FuncReport
 		}
 	}
 	for _, rq := range fc.Requires {
-		t, err := envPre.EvalBool(rq.E)
+		t, err := envPre.EvalAssume(rq.E)
 		if err != nil {
 			fr.contractError(rq, err)
 			continue
@@ -326,7 +374,7 @@ func (x *Exec) checkFrame(fr *Frame, fc *FuncContract, r RetEdge, envPre *SpecEn
 			continue
 		}
 		x.ctx.n++
-		rv := Term{fmt.Sprintf("r$%d", x.ctx.n), SInt}
+		rv := Term{S: fmt.Sprintf("r$%d", x.ctx.n), Sort: SInt}
 		var excl []Term
 		for _, a := range allowed[key] {
 			excl = append(excl, Neq(rv, a))
